@@ -26,6 +26,10 @@ def gen_case(rng):
         outside = [l for l in labels if l not in nodes]
         case["nodes"] = nodes
         case["vals"] = [[l, rng.choice(dom + ([2] if canonical else []))] for l in outside if rng.random() < 0.6]
+        if rng.random() < 0.35:
+            # a whole assignment handed over as connections: entries for labels INSIDE `nodes` are not outside variables
+            case["vals"] += [[l, rng.choice(dom)] for l in nodes if rng.random() < 0.7]
+            rng.shuffle(case["vals"])
         case["conn_none"] = (not case["vals"]) and rng.random() < 0.5
     else:
         # make max |coef| a power of two so the common factor is exact
